@@ -204,10 +204,31 @@ F11_PROG = {'tempos': ['1'], 'bodies': [[['Y', '1/2'], ['Y', '0']], [['Y', '1/8'
             'main': [['P', 0, ['T', 0]], ['P', 1, 'S']], 'tail': '0'}
 DEFECT_PROGS = [('F20', F20_PROG), ('F17', F17_PROG), ('F11', F11_PROG)]
 
+# C07 deepening: scenarios that must agree with the model in list order, raw order and timetags
+# (a) the SAME nested-bundle list object sent more than once from different logical times
+SHARE_PROGS = [
+    {'tempos': [], 'bodies': [[['Y', '1'], ['B', '1/8', [['m', 1], ['b', '1/4', [['m', 2], ['b', '1/2', [['m', 3]]]]]]],
+                               ['Y', '1'], ['B', '1/8', [['m', 1], ['b', '1/4', [['m', 2], ['b', '1/2', [['m', 3]]]]]]]]],
+     'main': [['P', 0, 'S']], 'tail': '0'},
+    {'tempos': ['2'], 'bodies': [[['B', None, [['b', '0', [['b', '1/4', [['m', 7]]]]], ['m', 8]]], ['Y', '1/2'],
+                                   ['B', None, [['b', '0', [['b', '1/4', [['m', 7]]]]], ['m', 8]]]]],
+     'main': [['P', 0, 'S'], ['P', 0, ['T', 0]], ['B', None, [['b', '0', [['b', '1/4', [['m', 7]]]]], ['m', 8]]]], 'tail': '1/4'},
+]
+# (b) negative latency inside a routine at logical time > 0, with other bundles at the same instant
+NEG_PROGS = [
+    {'tempos': [], 'bodies': [[['Y', '1/4'], ['S', '-1/4', 1], ['S', '0', 2], ['S', None, 3],
+                               ['B', '-1', [['m', 4], ['b', '-1/2', [['m', 5]]], ['b', '1/8', [['m', 6]]]]], ['M', 7]],
+                              [['Y', '1/4'], ['S', '0', 8], ['B', '-1/2', [['b', '-1', [['m', 9]]]]], ['S', '-2', 10]]],
+     'main': [['P', 0, 'S'], ['P', 1, 'S'], ['S', '-1', 11], ['S', '1/4', 12]], 'tail': '0'},
+    {'tempos': ['4'], 'bodies': [[['Y', '1/2'], ['S', '-1/8', 1], ['B', None, [['b', '-3', [['m', 2]]]]], ['S', '1/8', 3]]],
+     'main': [['P', 0, ['T', 0]], ['P', 0, 'A'], ['P', 0, 'S']], 'tail': '0'},
+]
+
 SIGNATURES = {
     'F20': 'C05:F20-nrt-appclock-sched-delta-is-absolute',
     'F17': 'C07:F17-nrt-tail-marker-before-later-bundle',
     'F11': 'C05:F11-nrt-tempo-change-with-pending-task',
+    'MUT': 'C07:nrt-score-add-mutates-callers-nested-bundle-lists',
 }
 
 
@@ -218,11 +239,11 @@ def nrt_item(p, o):
 QUIRK_SETS = [(a, t, m) for a in (False, True) for t in (False, True) for m in (False, True)]
 
 
-def run_nrt_correspondence(ctx, cases, name):
+def run_nrt_correspondence(ctx, cases, name, share=False):
     """Run cases on the real library (NRT) and on the repaired model.
     Returns (outs, bad_indices, explain, errors) where explain[i] = list of quirk triples under
     which the model reproduces the implementation on bad case i."""
-    outs = ctx.impl('c05_kscript', {'cases': cases}, mode='nrt')['out']
+    outs = ctx.impl('c05_kscript', {'cases': cases, 'share_lists': share}, mode='nrt')['out']
     items, idx = [], []
     errors = []
     for i, (p, o) in enumerate(zip(cases, outs)):
